@@ -352,6 +352,28 @@ def setHashesZ {H : Type} [DecidableEq H] (ops : HashOps H) (cfg : Cfg) (pick : 
       if o = .badHash ∨ o = .notEnough ∨ (o = .indexError ∧ cfg.catchIndex) then (.err o, rollback st.rm st.t)
       else (.err o, st.t)
 
+/-- `IncompleteHashTree._name_hash(i)`: the node description used in the text of BadHashError.  It is called
+    inside the `try:` while the message is built, so it must be defined for every node (an exception raised
+    here would not be one of the three the rollback clause catches). -/
+def nameHash (len first i : Nat) : String :=
+  let name := s!"[{i} of {len}]"
+  if i ≥ first then name ++ s!" (leaf [{i - first}] of {len - first})" else name
+
+/-- one `set_hashes` call of a history: the pop order of that call and its two dicts -/
+structure Batch (H : Type) where
+  pick : List Nat → Nat
+  hashes : List (Int × H)
+  leaves : List (Int × H)
+
+/-- a history of `set_hashes` calls on one tree object (exceptions are survived by the caller): outcome and
+    list after every call -/
+def runBatches {H : Type} [DecidableEq H] (ops : HashOps H) (cfg : Cfg) (first : Nat) :
+    Tree H → List (Batch H) → List (BatchOutcome × Tree H)
+  | _, [] => []
+  | t, b :: rest =>
+    let r := setHashesZ ops cfg b.pick first t b.hashes b.leaves
+    r :: runBatches ops cfg first r.2 rest
+
 /-- what an honest provider answers to `needed_hashes`: the genuine tree's value for each requested node
     (`dict((i, T[i]) for i in needed)`) -/
 def genuineBatch {H : Type} (T : Tree H) (l : List Nat) : List (Nat × H) :=
